@@ -252,6 +252,16 @@ CAMPAIGNS["validator_mutations"] = model_campaign(
     thorough=[ex(ph(["validate"], True))],                    # every ordered double mutation
     cap_thorough=200000)
 
+NOSTR = [["plain", "plain"], ["numeric_ids", "plain"], ["long_ids", "plain"]]     # keys/values are literal text here
+CAMPAIGNS["mapping_files"] = model_campaign(
+    "mapping_files", palettes=PLAIN, heaps="one",
+    quick=[ex(ph(["mapfile"], False, pick=3000))],
+    thorough=[ex(ph(["mapfile"], True, pick=40000))])
+CAMPAIGNS["add_metadata_command"] = model_campaign(
+    "add_metadata_command", palettes=NOSTR, heaps="val",
+    quick=[ex(ph(["cli_add_metadata"], False, "r", 80))],
+    thorough=[ex(ph(["cli_add_metadata"], True, "r", 1500))])
+
 CAMPAIGNS["err_profile"] = {
     "name": "err_profile", "kind": "err", "judge": ["BiomErrTrace.tla", "BiomErrTrace.cfg"],
     "cfgs": {"quick": [{"depth": 2, "nest": 3, "pick": [0, 0]},
@@ -303,7 +313,7 @@ PROPERTIES = {
     },
     "C18": {
         "level": "model_checking",
-        "campaigns": [CAMPAIGNS["metadata_updates"]],
+        "campaigns": [CAMPAIGNS["metadata_updates"], CAMPAIGNS["mapping_files"], CAMPAIGNS["add_metadata_command"]],
         "assumptions": [],
     },
     "C08": {
